@@ -101,6 +101,8 @@ impl Sim {
         let method = req.map(|q| q.method).unwrap_or(1);
         let (mut key, mut sha) = self.server_key_for(None);
         let mut attrs: Vec<RAttr> = Vec::new();
+        // nonce-cookie feature bits (algorithms, anonymity) of the genuine NONCE of an error response
+        let mut first_bits = (false, false);
         let class = match &r.body {
             Body::Success => 2,
             Body::Error(code) => {
@@ -130,6 +132,9 @@ impl Sim {
                 }
                 if !drop_nonce {
                     attrs.push(RAttr::Nonce(nonce_text(*nonce, *cookie, list.is_some(), *anon)));
+                    if *cookie {
+                        first_bits = (list.is_some(), *anon);
+                    }
                 }
                 if let Some(l) = &list {
                     attrs.push(RAttr::PasswordAlgorithms(l.clone()));
@@ -162,6 +167,9 @@ impl Sim {
                         .unwrap_or((false, false));
                     let cookie = self.lt_sess.as_ref().map(|s| s.nonce.starts_with("obMatJos2")).unwrap_or(false);
                     attrs.push(RAttr::Nonce(format!("{}-stale{}", nonce_text(*nonce, cookie, a, u), nonce)));
+                    if cookie {
+                        first_bits = (a, u);
+                    }
                     if r.twist & 16 != 0 {
                         // a different list than the session's (the offer that counts is the one of the 401)
                         let cur = self.lt_sess.as_ref().and_then(|s| s.algs.clone());
@@ -183,7 +191,13 @@ impl Sim {
                 attrs.push(RAttr::Realm("second-realm.invalid".into()));
             }
             if r.twist & 2 != 0 {
-                attrs.push(RAttr::Nonce("second-nonce-value".into()));
+                // the duplicate is either a plain nonce or a nonce cookie whose feature bits are the opposite of the
+                // genuine one's (whoever reads the bits from the wrong NONCE picks the wrong identity attribute)
+                attrs.push(RAttr::Nonce(if r.twist & 32 != 0 {
+                    nonce_text(1, true, !first_bits.0, !first_bits.1)
+                } else {
+                    "second-nonce-value".into()
+                }));
             }
             if r.twist & 4 != 0 {
                 attrs.push(RAttr::ErrorCode { code: 420, reason: "second".into() });
